@@ -55,4 +55,42 @@ def serve (bodyTmpl hdrTmpl varTmpl : Bytes) (r : HttpReq) : Option (Bytes × By
     | some h, some b => some (b, h)
     | _, _ => none
 
+/-! ### the `vars` and `vars_regexp` matchers (modules/caddyhttp/vars.go) -/
+
+def countByte (b : UInt8) (l : Bytes) : Nat := (l.filter (· = b)).length
+
+/-- `strings.Trim(key, "{}")` -/
+def trimBraces (l : Bytes) : Bytes :=
+  ((l.dropWhile isBrace).reverse.dropWhile isBrace).reverse
+
+/-- key "surrounded by { }" ⇒ looked up as a placeholder, else a variable name -/
+def isPlaceholderKey (key : Bytes) : Bool :=
+  key.head? = some phOpen && key.getLast? = some phClose && countByte phOpen key = 1
+
+/-- the actual value the matchers compare: `repl.Get(strings.Trim(key,"{}"))` or `vars[key]`
+    (the harness puts exactly one variable, `v`, into the vars table) -/
+def varValue (key : Bytes) (r : HttpReq) : Bytes :=
+  if isPlaceholderKey key then
+    match httpEnv r (trimBraces key) with
+    | some v => v
+    | none => []
+  else if key = str "v" then r.varV else []
+
+/-- `VarsMatcher{key: [matchVal]}`: the configured value is expanded, the actual value is NOT -/
+def varsMatch (key matchVal : Bytes) (r : HttpReq) : Option Bool :=
+  match resBytes (replaceAll matchVal [] (httpEnv r)) with
+  | some mv => some (varValue key r == mv)
+  | none => none
+
+/-- `MatchVarsRE{key: (?s)^(.*)$}`: capture group 1 afterwards = the text the regular expression
+    was given. Since the fix commit "vars_regexp matches the variable's value without expanding it
+    again" that is the actual value itself. -/
+def varsRegexpCaptured (key : Bytes) (r : HttpReq) : Option Bytes :=
+  some (varValue key r)
+
+/-- the pre-fix behaviour (vars.go used to do `valExpanded := repl.ReplaceAll(varStr, "")`), kept to
+    show what the verbatim statement excludes -/
+def varsRegexpCapturedOld (key : Bytes) (r : HttpReq) : Option Bytes :=
+  resBytes (replaceAll (varValue key r) [] (httpEnv r))
+
 end CaddyModel.C18
